@@ -555,7 +555,7 @@ class Render:
         if op == "ite":
             return "(ite %s %s %s)" % (self.r(a[0]), self.r(a[1]), self.r(a[2]))
         if op == "uf":
-            nm = a[0]
+            nm = "uf_" + a[0]
             args = a[1:]
             sorts = " ".join(self.sort(x.sort if is_t(x) else ("I" if isinstance(x, int) and not isinstance(x, bool) else "F")) for x in args)
             self.ufs[nm] = "(declare-fun %s (%s) %s)" % (nm, sorts, self.sort(t.sort))
